@@ -2,7 +2,7 @@
 From Coq Require Import List ZArith NArith Bool.
 From Coq.Strings Require Import Byte.
 Import ListNotations.
-From SV Require Import Text G_flags C15_Model C15_Lemmas C15_Read C15_Fold C15_Blocks C15_Rows C15_RowInv C15_RowIdem.
+From SV Require Import Text G_flags C15_Model C15_Lemmas C15_Read C15_Fold C15_Blocks C15_Rows C15_RowInv C15_RowIdem C15_Handle C15_Crlf C15_Noise.
 
 (* the Defect values the row functions rely on (regenerated from /repo) *)
 Theorem C15_flags_pinned : D_NONE = 0%N /\ D_MISS_LEFT = 1%N /\ D_MISS_RIGHT = 2%N /\ D_BEYOND_LEFT = 4%N /\ D_BEYOND_RIGHT = 8%N.
@@ -156,6 +156,166 @@ Theorem C15_box_sizes : N.of_nat (length (strs_upto ROW_ALPHA ROW_BOX)) = 87381%
   /\ N.of_nat (length (filter wf_fts box_fts)) = 1085%N.
 Proof. exact box_sizes. Qed.
 Print Assumptions C15_box_sizes.
+
+(* ---- round 6: handle positions. A handle is a text t and an offset; read_at models one sugar.read(handle[, fmt]) ---- *)
+
+(* format detection accepts what the writer (and the interleaved rendering) produces, whatever follows *)
+Theorem C15_is_stockholm_written : forall a rest,
+  is_stockholm (write_text a ++ rest) = true /\ (forall bw, is_stockholm (render_blocks bw a ++ rest) = true).
+Proof. exact (fun a rest => conj (is_stockholm_write a rest) (fun bw => is_stockholm_blocks bw a rest)). Qed.
+Print Assumptions C15_is_stockholm_written.
+
+(* offset theorem: the handle standing behind leading bytes pre and the first k alignments (the caller consumed them, or
+   earlier reads did), one read - format given or detected - returns alignment k and leaves the handle exactly behind it *)
+Theorem C15_read_at_offset : forall alns k a pre post auto, forallb wf_aln alns = true -> nth_error alns k = Some a ->
+  let texts := map write_text alns in
+  let off := length pre + length (concat (firstn k texts)) in
+  read_at auto (pre ++ concat texts ++ post) off = (got a, off + length (write_text a)).
+Proof. exact read_at_kth. Qed.
+Print Assumptions C15_read_at_offset.
+
+(* successive reads on one handle, any mixture of given / detected format: step k returns alignment k with its own
+   annotations and offset k+1 = offset k + the length of the text of alignment k (induction on the list of alignments) *)
+Theorem C15_chain_offsets : forall alns flags pre post, forallb wf_aln alns = true -> length flags = length alns ->
+  chain flags (pre ++ concat (map write_text alns) ++ post) (length pre)
+  = combine (map got alns) (offsets (length pre) (map write_text alns)).
+Proof. exact chain_offsets. Qed.
+Print Assumptions C15_chain_offsets.
+
+(* the same for files in which every alignment has its own block width *)
+Theorem C15_chain_any_layout : forall ps flags pre post, forallb wf_layout ps = true -> length flags = length ps ->
+  chain flags (pre ++ concat (map layout_text ps) ++ post) (length pre)
+  = combine (map (fun p => got (fst p)) ps) (offsets (length pre) (map layout_text ps)).
+Proof. exact chain_any_layout. Qed.
+Print Assumptions C15_chain_any_layout.
+
+(* one more read with the format given: an empty basket, the handle stays at the end of the file *)
+Theorem C15_chain_then_empty : forall alns flags pre, forallb wf_aln alns = true -> length flags = length alns ->
+  let t := pre ++ concat (map write_text alns) in
+  chain (flags ++ [false]) t (length pre)
+  = combine (map got alns) (offsets (length pre) (map write_text alns)) ++ [(empty_read, length t)].
+Proof. exact chain_then_empty. Qed.
+Print Assumptions C15_chain_then_empty.
+
+(* the offsets tile the file: as many as texts, the last one is the end of the last text *)
+Theorem C15_offsets_tile : forall off texts,
+  length (offsets off texts) = length texts /\ last (offsets off texts) off = off + length (concat texts).
+Proof. exact (fun off texts => conj (offsets_length off texts) (offsets_last texts off)). Qed.
+Print Assumptions C15_offsets_tile.
+
+(* at the end of the handle: empty basket when the format is given, no detection otherwise; the handle stays *)
+Theorem C15_read_at_eof : forall t,
+  read_at false t (length t) = (empty_read, length t) /\ read_at true t (length t) = (None, length t).
+Proof. exact (fun t => conj (read_at_eof t) (read_at_eof_auto t)). Qed.
+Print Assumptions C15_read_at_eof.
+
+(* ---- white space at the end of lines (blanks, tabs, the "\r" of DOS line ends) is not seen: the written lines with ANY
+   white-space tails read to the same alignment and the reader consumes exactly that text; in particular the file with
+   "\r\n" line ends, for which the successive-read theorem holds as well ---- *)
+Theorem C15_read_trailing_ws : forall a tails tend rest, wf_aln a = true ->
+  length tails = length (content_lines a) -> Forall ws_tail tails -> ws_tail tend ->
+  read_text (concat (eol_lines (content_lines a) tails) ++ (bs "//"%bs ++ tend ++ [NL]) ++ rest) = (Some a, rest).
+Proof. exact read_trailing_ws. Qed.
+Print Assumptions C15_read_trailing_ws.
+
+Theorem C15_read_crlf : forall a rest, wf_aln a = true ->
+  read_text (crlf (write_text a) ++ rest) = (Some a, rest) /\ is_stockholm (crlf (write_text a) ++ rest) = true.
+Proof. exact (fun a rest H => renders_crlf a H rest). Qed.
+Print Assumptions C15_read_crlf.
+
+Theorem C15_chain_crlf : forall alns flags pre post, forallb wf_aln alns = true -> length flags = length alns ->
+  chain flags (pre ++ concat (map dos_text alns) ++ post) (length pre)
+  = combine (map got alns) (offsets (length pre) (map dos_text alns)).
+Proof. exact chain_crlf. Qed.
+Print Assumptions C15_chain_crlf.
+
+(* ---- lines that carry nothing: blank lines, comments and (repeated) header lines may stand anywhere - on the reader's
+   loop and on the text of ANY file; a file without the terminator is read completely; the header line is not needed when
+   the format is given ---- *)
+Theorem C15_noise_ignored : forall its s, fold_left step (filter keeps its) s = fold_left step its s.
+Proof. exact fold_noise. Qed.
+Print Assumptions C15_noise_ignored.
+
+Theorem C15_read_text_noise : forall t, fst (read_text (concat (filter keepl (py_lines t)))) = fst (read_text t).
+Proof. exact read_text_noise. Qed.
+Print Assumptions C15_read_text_noise.
+
+Theorem C15_read_unterminated : forall a, wf_aln a = true ->
+  read_text (concat (map addnl (content_lines a))) = (Some a, []).
+Proof. exact read_unterminated. Qed.
+Print Assumptions C15_read_unterminated.
+
+Theorem C15_read_headerless : forall a rest, wf_aln a = true ->
+  read_text (concat (map addnl (tl (content_lines a))) ++ ENDL ++ rest) = (Some a, rest).
+Proof. exact read_headerless. Qed.
+Print Assumptions C15_read_headerless.
+
+(* ---- the command-line converter as a transport: written files are fixed points byte for byte; an interleaved file is
+   converted to the single-block text of the same alignment; what it prints / writes reads back to the alignment ---- *)
+Theorem C15_convert_fixpoint : forall a, wf_aln a = true -> convert_text false (write_text a) = Some (write_text a).
+Proof. exact convert_fixpoint. Qed.
+Print Assumptions C15_convert_fixpoint.
+
+Theorem C15_convert_blocks : forall bw a stdout, wf_aln a = true -> 1 <= bw ->
+  exists out, convert_text stdout (render_blocks bw a) = Some out
+              /\ out = write_text a ++ (if stdout then [NL] else [])
+              /\ fst (read_text out) = Some a.
+Proof. exact convert_blocks. Qed.
+Print Assumptions C15_convert_blocks.
+
+(* iter_ (no basket): every sequence of the alignment with its own GS / GR, in order, from any block layout *)
+Theorem C15_iter_rows : forall a, wf_aln a = true ->
+  iter_text (write_text a) = Some (a_rows a) /\ (forall bw, 1 <= bw -> iter_text (render_blocks bw a) = Some (a_rows a)).
+Proof. exact iter_rows. Qed.
+Print Assumptions C15_iter_rows.
+
+(* ---- line layout of write_stockholm: header, one line per GF entry, per GS entry, per sequence, per GR entry, per GC
+   entry, terminator; every line ends in exactly one newline and nothing else is written ---- *)
+Theorem C15_write_layout : forall a, wf_aln a = true ->
+  py_lines (write_text a) = map addnl (content_lines a) ++ [ENDL]
+  /\ length (py_lines (write_text a)) = 2 + length (a_gf a) + n_gs a + length (a_rows a) + n_gr a + length (a_gc a).
+Proof. exact write_layout. Qed.
+Print Assumptions C15_write_layout.
+
+(* ---- widths: a file whose GC / GR fragments are block by block as wide as the fragments of a sequence row reads to
+   annotations exactly as wide as that row, for ANY placement of the lines; and what is read from the interleaved
+   rendering of a well-formed alignment has every row, GR and GC value of the alignment's width ---- *)
+Theorem C15_width_invariant : forall its i d ds, seq_frags i its = d :: ds ->
+  let S := fold_left step its st0 in
+  exists y, lookup i (s_seqs S) = Some y /\ length y = list_sum (map (@length byte) (d :: ds))
+  /\ (forall k v vs, gc_frags k its = v :: vs -> map (@length byte) (v :: vs) = map (@length byte) (d :: ds) ->
+        exists x, lookup k (s_gc S) = Some x /\ length x = length y)
+  /\ (forall j k v vs, gr_frags j k its = v :: vs -> map (@length byte) (v :: vs) = map (@length byte) (d :: ds) ->
+        exists x, lookup k (getd j (s_gr S)) = Some x /\ length x = length y).
+Proof. exact width_invariant. Qed.
+Print Assumptions C15_width_invariant.
+
+Theorem C15_read_widths : forall bw a rest, wf_aln a = true -> 1 <= bw ->
+  exists b, read_text (render_blocks bw a ++ rest) = (Some b, rest) /\ all_width b (width a) = true /\ width b = width a.
+Proof. exact read_widths. Qed.
+Print Assumptions C15_read_widths.
+
+(* non-vacuity: tails that are white space without a newline exist, and a DOS file *)
+Example C15_witness_tails :
+  ws_tail [CR] /\ ws_tail (bs "  "%bs) /\ ws_tail []
+  /\ Bstr (crlf (write_text (mkaln [] [] [mkrow (bs "a"%bs) (bs "AC"%bs) [] []])))
+     = Bstr (unhex (bs "232053544f434b484f4c4d20312e300d0a612041430d0a2f2f0d0a"%bs)).
+Proof. exact (conj (conj eq_refl eq_refl) (conj (conj eq_refl eq_refl) (conj (conj eq_refl eq_refl) eq_refl))). Qed.
+
+(* non-vacuity: a file with a comment, a blank line and a second header loses exactly those lines *)
+Example C15_witness_noise :
+  map Bstr (filter keepl (py_lines (unhex (bs "232053544f434b484f4c4d20312e300a2320636f6d6d656e740a0a6120414347550a232053544f434b484f4c4d20312e300a2f2f0a"%bs))))
+  = [Bstr (unhex (bs "6120414347550a"%bs)); Bstr (unhex (bs "2f2f0a"%bs))].
+Proof. exact eq_refl. Qed.
+
+(* non-vacuity of the chain theorems: five leading bytes, two alignments (the second detected), then one more read *)
+Example C15_witness_chain :
+  let a1 := mkaln [(bs "ID"%bs, bs "x"%bs)] [] [mkrow (bs "a"%bs) (bs "AC"%bs) [] [(bs "SS"%bs, bs "<>"%bs)]] in
+  let a2 := mkaln [] [(bs "SS_cons"%bs, bs "."%bs)] [mkrow (bs "b"%bs) (bs "G"%bs) [(bs "DE"%bs, bs "y z"%bs)] []] in
+  forallb wf_aln [a1; a2] = true
+  /\ chain [false; true; false] (bs "junk "%bs ++ write_text a1 ++ write_text a2) 5
+     = [(got a1, 52); (got a2, 104); (empty_read, 104)].
+Proof. exact (conj eq_refl eq_refl). Qed.
 
 (* non-vacuity: an alignment with all four annotation kinds meets the hypotheses *)
 Example C15_witness_aln :
